@@ -170,6 +170,8 @@ type cpEngine struct {
 	// variables that nothing but initialisers ever write keep theirs.
 	globals  map[*ssa.Global]*cpCell
 	initMode bool
+	// onceDone: the sync.Once values whose function has run on this path
+	onceDone map[*cpCell]bool
 }
 
 type cpAbort struct{ why string }
@@ -297,7 +299,7 @@ func cpFoldOpt(P *Program, fn *ssa.Function, args []cpVal, opaque func(*ssa.Func
 		d := e.pending[len(e.pending)-1]
 		e.pending = e.pending[:len(e.pending)-1]
 		e.decisions, e.taken, e.steps, e.calls, e.uid, e.decided = d, nil, 0, nil, 0, map[string]bool{}
-		e.bytes, e.constraints = nil, nil
+		e.bytes, e.constraints, e.onceDone = nil, nil, nil
 		out, aborted := e.runTop(fn, args)
 		if aborted != "" {
 			return nil, nil, false, aborted
@@ -1368,6 +1370,41 @@ func (e *cpEngine) evalCall(fr *cpFrame, x *ssa.Call, depth int) cpVal {
 		args := make([]cpVal, len(cc.Args))
 		for i, a := range cc.Args {
 			args[i] = e.get(fr, a)
+		}
+		if qualName(g) == "(*sync.Once).Do" && len(args) == 2 && depth < e.MaxDepth {
+			// once.Do(f): f runs on the first call for that Once (a Once the fold does not know is taken to be
+			// fresh: the fold asks what the first use of a value does)
+			var cell *cpCell
+			if p, ok := args[0].(cpPtr); ok {
+				cell = p.C
+			}
+			if cell != nil && e.onceDone[cell] {
+				return cpNil{}
+			}
+			switch f := args[1].(type) {
+			case cpClosure:
+				if f.Fn.Blocks != nil {
+					if cell != nil {
+						if e.onceDone == nil {
+							e.onceDone = map[*cpCell]bool{}
+						}
+						e.onceDone[cell] = true
+					}
+					e.callBound(f.Fn, nil, f.Bind, depth+1)
+					return cpNil{}
+				}
+			case cpFn:
+				if f.Fn.Blocks != nil {
+					if cell != nil {
+						if e.onceDone == nil {
+							e.onceDone = map[*cpCell]bool{}
+						}
+						e.onceDone[cell] = true
+					}
+					e.call(f.Fn, nil, depth+1)
+					return cpNil{}
+				}
+			}
 		}
 		if r, ok := e.external(qualName(g), args, x.Type()); ok {
 			return r
